@@ -336,6 +336,20 @@ func hostileWireCases(fuMiddles int) []wireCase {
 			add("h264 payload "+h.Name, wf(0, mp(96, vts, h.B), h.Name))
 		}
 	}
+	// the other RFC 6184 payload structures (STAP-B, MTAP16, MTAP24, FU-B), whole and cut
+	for _, h := range otherStructures(esgen.H264) {
+		add("h264 payload "+h.Name, wf(0, mp(96, vts, h.B), h.Name))
+	}
+	for _, name := range []string{"mtap16-sps-pps-idr", "mtap24-sps-pps-idr", "stapb-sps-pps-idr"} {
+		for _, h := range otherStructures(esgen.H264) {
+			if h.Name != name {
+				continue
+			}
+			for _, cut := range []int{4, 5, 6, 7, 8, len(h.B) - 1} {
+				add(fmt.Sprintf("h264 payload %s cut to %d bytes", name, cut), wf(0, mp(96, vts, h.B[:cut]), name))
+			}
+		}
+	}
 	for _, h := range hostileAac {
 		switch h.Name {
 		case "empty", "headers-length-beyond", "au-size-beyond", "second-header-missing":
